@@ -70,6 +70,7 @@ func (v *vigil) CeaseVigil() {
 	// the condition variable, misses the broadcast and then sleeps forever.
 	v.mu.Lock()
 	atomic.AddInt64(&v.vigils, -1)
+	verifhook.Point("vigil.cease.dec", atomic.LoadInt64(&v.vigils))
 	v.mu.Unlock()
 	verifhook.Point("vigil.cease.gap", atomic.LoadInt64(&v.vigils))
 	v.cond.Broadcast()
